@@ -17,8 +17,8 @@ GEN = ['GenTables.v', 'GenDispatch.v', 'GenConv.v', 'GenEnums.v', 'GenAlpha.v']
 RULE = ('payload bit strings of each of the 35 layout variants at the full length and at shorter lengths ending on a field '
         'boundary or on a character/byte boundary inside a variable-length field: PRNG-drawn payloads plus per-field sweeps '
         '(every raw code of every field of width <= 8 in the quick tier, <= 12 in the thorough tier; boundary codes, sentinels '
-        'and sampled codes of wider fields; all 64 six-bit codes at the first, a middle and the last position of every text '
-        'field, leading @, blanks only, trailing blanks) each in a random context; sub-character text padding zeroed for the '
+        'and sampled codes of wider fields; six-bit codes (20 incl. 0, 1, 31, 32, 33, 63 in the quick tier, all 64 in the thorough '
+        'tier) at the first, a middle and the last position of every text field, leading @, blanks only, trailing blanks) each in a random context; sub-character text padding zeroed for the '
         'oracle, left random in a separate model-vs-code stream together with mid-field cuts; distinct = distinct bit strings')
 ASSUMPTIONS = ['binary64 arithmetic obeys the standard model (decoded scaled values are tied to the exact decimal by '
                'x == num/den on Python integers)',
@@ -171,7 +171,7 @@ def lengths_of(model, variant, rng, n_inner):
     return field_b, inner
 
 
-def sweep_cases(rng, variant, lay, spec, max_w, per_wide):
+def sweep_cases(rng, variant, lay, spec, max_w, per_wide, all_chars=True):
     """one field set to a chosen raw code, every other bit random, at the full length"""
     for f in lay.fields:
         off, w, k = f.off, f.width, f.kind
@@ -180,7 +180,8 @@ def sweep_cases(rng, variant, lay, spec, max_w, per_wide):
         if k == 'T':
             nchars = w // 6
             for pos in sorted({0, nchars // 2, nchars - 1}):
-                for code in range(64):
+                codes = range(64) if all_chars else sorted({0, 1, 31, 32, 33, 63} | set(rng.sample(range(64), 14)))
+                for code in codes:
                     yield ('text', cc.set_field(cc.make_payload(rng, variant), off + 6 * pos, 6, code))
             base = cc.make_payload(rng, variant)
             yield ('text', cc.set_field(base, off, 6, 0))                                             # leading '@'
@@ -233,14 +234,14 @@ def run(ctx, n_random=None, max_w=None, per_wide=None, n_inner=-1, classes=None)
                 cases.append(('random@' + ('full' if n == variant[2] else 'boundary' if n in field_b else 'inner'),
                               cc.zero_text_padding(cc.make_payload(rng, variant, n), spec)))
         # per-field sweeps at the full length ...
-        for kind, bits in sweep_cases(rng, variant, lay, spec, max_w, per_wide):
+        for kind, bits in sweep_cases(rng, variant, lay, spec, max_w, per_wide, all_chars=not ctx.quick or ctx.escalated):
             cases.append((kind, cc.zero_text_padding(bits, spec)))
         # ... and cut at a random later length of the quantifier (the swept field stays covered)
         shorter = [n for n in field_b + inner if n < variant[2]]
         if shorter:
-            cut = list(sweep_cases(rng, variant, lay, spec, min(max_w, 6), 1))
-            if ctx.quick and len(cut) > 150:
-                cut = rng.sample(cut, 150)
+            cut = list(sweep_cases(rng, variant, lay, spec, min(max_w, 6), 1, all_chars=not ctx.quick))
+            if ctx.quick and len(cut) > 100:
+                cut = rng.sample(cut, 100)
             for kind, bits in cut:
                 n = rng.choice(shorter)
                 cases.append((kind + '@cut', cc.zero_text_padding(bits, spec)[:n]))
